@@ -545,6 +545,15 @@ def r2c_input_configuration(a, tier):
                     want = ng if ng is not None else (ws is not None or bool(nc))
                     rep.add({'input': c.split('.')[-1], 'nameguard_setting': ng, 'skips_whitespace': ws is not None, 'namechars': nc,
                              'nameguard': got, 'want': want})
+                    # the name characters are those of @@namechars - none when the setting is unset: unset (the model) and '' (what generated
+                    # parsers write for a grammar without @@namechars) mean the same
+                    ncs = me._attrs.get('_namechar_set', '<not set>')
+                    okn = ncs != '<not set>' and set(ncs) == set(nc or '')
+                    rep.add({'input': c.split('.')[-1], 'namechars': nc, 'name_character_set': sorted(ncs) if okn or isinstance(ncs, (set, frozenset, list, tuple, str)) else ncs, 'ok': okn})
+                    if not okn:
+                        rep.fail(init.qualname, f'namechar-set:{nc!r}', f'{c.split(".")[-1]}: namechars {nc!r} gives the name-character set {ncs!r}; required {sorted(set(nc or ""))} '
+                                 f'(unset and empty are the same: a generated parser writes namechars=\'\' where the compiled model leaves it unset, and the two must '
+                                 f'guard the same tokens)', init.loc)
                     if got == '<not set>' or bool(got) != want or (ng is not None and got is not ng):
                         rep.fail(init.qualname, f'nameguard:{ng}:{ws is not None}:{nc!r}', f'{c.split(".")[-1]}: nameguard setting {ng}, whitespace '
                                  f'{"skipped" if ws is not None else "not skipped"}, namechars {nc!r} -> nameguard={got}; required {want} '
